@@ -19,7 +19,13 @@ def check(chk, thorough=False):
     chk.run('C09.e', 'R-ESCAPE', 'every SESS_TERM send reachable from an event-loop callback has its preconditions established', lambda ob: c09e(tree, ob), floor=3)
     chk.run('C09.f', 'R-FLOW', 'closing a connection notifies the agent, which announces it and stops when the last one is gone during shutdown', lambda ob: c09f(tree, ob), floor=4)
     chk.run('C09.h', 'R-GUARD', 'a transfer already in progress keeps sending its segments while terminating', lambda ob: c09h(tree, ob), floor=1)
+    chk.run('C09.i', 'R-GUARD', 'the idle indication that gates the close covers transfers, queues and every octet buffer down to the socket (= C18.d)', lambda ob: _c18d(tree, ob), floor=6)
     chk.run('C09.g', 'R-ITER', 'agent stop/shutdown loops are not invalidated by the handlers they close and do not skip handlers', lambda ob: c09g(tree, ob), floor=2)
+
+
+def _c18d(tree, ob):
+    from .c18 import c18d
+    return c18d(tree, ob)
 
 
 DRAIN_CALLS = {
@@ -31,18 +37,33 @@ DRAIN_CALLS = {
 
 
 def c09a(tree, ob):
+    # The idle predicate includes "receive buffer empty", which becomes true only when the message loop ends - after the
+    # last handler returned.  A close check behind the loop therefore covers every receive-driven release of in-flight
+    # state; checks inside the handlers alone do not (they run while following octets are still buffered).
+    fr = FuncView(tree, SESS, 'Messenger.recv_raw')
+    loops = [n for n in walk_local(fr.func) if isinstance(n, ast.While)]
+    loop = one(loops, 'message loop in recv_raw', ob)
+    cond = fr.node(loop)
+    done = [s for (s, lab) in cond.succ if lab is False]
+    lchecks = {fr.node(c) for c in method_calls(fr.func, '_check_sess_term', 'self') if fr.node(c) not in fr.cfg.reachable([fr.node(loop.body[0])], avoid=[cond])}
+    loop_ok = bool(done) and bool(lchecks) and all(d in lchecks or fr.cfg.must_pass(d, fr.cfg.exit, lchecks, include_exc=False)[0] for d in done)
+    # the hook called there must be the session handler's check (overriding a base no-op is fine)
+    if loop_ok:
+        ob.site(SESS, loop, 'recv_raw: the close check runs again once the receive buffer has drained')
+    else:
+        ob.violate(SESS, fr.qual, 'while self.__rx_buf: ...  (no close check behind the loop)', 'the close check runs only inside message handlers, while the octets of a following message are still buffered: '
+                   'a SESS_TERM (or final ACK) followed in the same read by any other message leaves the terminating session open for ever', loop)
     for qual, kinds in DRAIN_CALLS.items():
         fv = FuncView(tree, SESS, qual)
         checks = {fv.node(c) for c in method_calls(fv.func, '_check_sess_term', 'self')}
-        if not checks:
-            ob.violate(SESS, qual, '_check_sess_term', 'handler that drains in-flight state never runs the post-termination close check', fv.func)
-            continue
         if kinds is None:
-            ok, wit = fv.cfg.must_pass(fv.cfg.entry, fv.cfg.exit, checks, include_exc=False)
+            ok, wit = fv.cfg.must_pass(fv.cfg.entry, fv.cfg.exit, checks, include_exc=False) if checks else (False, None)
             if ok:
                 ob.site(SESS, fv.func, qual + ': every normal path runs the close check')
+            elif loop_ok:
+                ob.site(SESS, fv.func, qual + ': close check left to the one behind the receive loop')
             else:
-                ob.violate(SESS, qual, 'return without _check_sess_term', 'a received SESS_TERM can be handled without the close check', fv.func, path_text(wit))
+                ob.violate(SESS, qual, 'return without _check_sess_term', 'a received SESS_TERM can be handled without the close check', fv.func, path_text(wit or []))
             continue
         drains = []
         for call in calls_in(fv.func):
@@ -52,11 +73,13 @@ def c09a(tree, ob):
                     drains.append(call)
         ob.require(drains, 'no drain site in ' + qual)
         for call in drains:
-            ok, wit = fv.cfg.must_pass(fv.node(call), fv.cfg.exit, checks, include_exc=False)
+            ok, wit = fv.cfg.must_pass(fv.node(call), fv.cfg.exit, checks, include_exc=False) if checks else (False, None)
             if ok:
                 ob.site(SESS, call, '{}: {} is followed by the close check'.format(qual, src(call)[:50]))
+            elif loop_ok:
+                ob.site(SESS, call, '{}: {} - close check left to the one behind the receive loop'.format(qual, src(call)[:50]))
             else:
-                ob.violate(SESS, qual, src(call), 'in-flight state is released without running the post-termination close check afterwards', call, path_text(wit))
+                ob.violate(SESS, qual, src(call), 'in-flight state is released without running the post-termination close check afterwards', call, path_text(wit or []))
     close_check(tree, ob)
 
 
@@ -102,9 +125,39 @@ def c09b(tree, ob):
 
 
 def c09c(tree, ob):
-    fv = FuncView(tree, SESS, 'ContactHandler.recv_sess_term')
+    _flush_rule(tree, ob, 'ContactHandler.recv_sess_term')
+    # nothing joins the queue once terminating: it could not start (C04.c), the flush has already run, and it would keep
+    # the idle predicate false for ever
+    cls = tree.klass(SESS, 'ContactHandler')
+    for item in cls.body:
+        if not isinstance(item, ast.FunctionDef):
+            continue
+        for call in calls_in(item):
+            if pm('self._tx_pend_start.append($x)', call) is not None or pm('self._tx_pend_start.insert($i, $x)', call) is not None:
+                fa = FuncView(tree, SESS, 'ContactHandler.' + item.name)
+                if fa.has(call, 'self._in_term', False):
+                    ob.site(SESS, call, item.name + ': enqueue only while not terminating')
+                else:
+                    ob.violate(SESS, fa.qual, src(call) + ' while terminating', 'a bundle can be queued after SESS_TERM was sent or received: it is never started, never reported as not sent, and keeps '
+                               'the session from becoming idle, so neither endpoint ever closes', call)
+    # every other way a session ends goes through close(): the same flush, before the object leaves the bus
+    fv = FuncView(tree, SESS, 'ContactHandler.close')
+    loops = [n for n in walk_local(fv.func) if isinstance(n, (ast.While, ast.For)) and '_tx_pend_start' in src(n.test if isinstance(n, ast.While) else n.iter)]
+    if not loops:
+        ob.violate(SESS, fv.qual, 'close() without a flush of self._tx_pend_start', 'bundles still queued when the connection closes other than by a received SESS_TERM (peer disconnect, idle close, '
+                   'close(), agent stop) are silently lost: no finished signal is ever emitted for them', fv.func)
+        return
+    _flush_rule(tree, ob, 'ContactHandler.close')
+    gone = [fv.node(c) for c in method_calls(fv.func, 'remove_from_connection', 'self')]
+    late = [f for f in method_calls(fv.func, 'send_bundle_finished', 'self') if gone and fv.node(f) in fv.cfg.reachable(gone)]
+    if late:
+        ob.violate(SESS, fv.qual, src(late[0])[:60], 'the not-sent signal is emitted after the object was removed from the bus (nobody can receive it)', late[0])
+
+
+def _flush_rule(tree, ob, qual):
+    fv = FuncView(tree, SESS, qual)
     loops = [n for n in walk_local(fv.func) if isinstance(n, (ast.While, ast.For))]
-    loop = one(loops, 'flush loop in recv_sess_term', ob)
+    loop = one(loops, 'flush loop in ' + qual, ob)
     if isinstance(loop, ast.While):
         if src(loop.test) not in ('self._tx_pend_start', 'len(self._tx_pend_start) > 0', 'len(self._tx_pend_start)'):
             raise AnalysisError('C09.c: unrecognised flush loop condition ' + src(loop.test))
@@ -158,8 +211,9 @@ def c09c(tree, ob):
             ob.site(SESS, fin, "each flushed bundle reported '{}'".format(res))
 
 
-def c09e(tree, ob):
-    ''' Preconditions of send_sess_term (in session, not already terminating) at its call sites. '''
+def c09e(tree, ob, user_entry=True):
+    ''' Preconditions of send_sess_term (in session, not already terminating) at its call sites.
+    user_entry: also judge the user-facing terminate() request (C09 only; C14/C17 are about timers and peer messages). '''
     cg = CallGraph(tree, [SESS])
     sites = []
     for (rel, qual, func) in tree.all_functions([SESS]):
@@ -172,8 +226,17 @@ def c09e(tree, ob):
         facts = fv.facts(call) or frozenset()
         in_try = _covered_by_handler(call, ('RuntimeError', 'Exception'))
         if qual == 'ContactHandler.terminate':
-            # D-Bus method: an exception is returned to the caller as an error reply, not an event-loop escape
-            ob.site(SESS, call, 'terminate(): user request, exception becomes a D-Bus error reply')
+            # the user's (and Agent.shutdown's) request can come at any moment: before the session exists and while
+            # termination is already under way.  An exception here aborts the shutdown loop over all connections.
+            miss = [t for (t, p) in (('self._in_term', False), ('self._in_sess', True)) if (t, p) not in facts and not in_try]
+            if not user_entry:
+                ob.site(SESS, call, 'terminate(): user request (judged under C09.e)')
+            elif miss:
+                ob.violate(SESS, qual, 'terminate(): send_sess_term with {} unestablished'.format(' / '.join(miss)),
+                           'a termination request before the session is established, or while already terminating, raises RuntimeError instead of closing / doing nothing; '
+                           'Agent.shutdown() aborts at the first such connection and the remaining sessions are never terminated', call)
+            else:
+                ob.site(SESS, call, 'terminate(): preconditions established (no session -> close, already terminating -> nothing)')
             continue
         need_term = ('self._in_term', False) in facts or in_try
         need_sess = ('self._in_sess', True) in facts or in_try or _in_sess_structural(tree, fv, call)
@@ -375,6 +438,12 @@ def c09h(tree, ob):
             continue
         for call in method_calls(item, '_process_queue_trigger', 'self'):
             fx = FuncView(tree, SESS, 'ContactHandler.' + item.name)
+            # a trigger that only announces a freshly queued bundle serves the start of new transfers, which must not
+            # happen while terminating anyway: it may sit behind the refusal of the enqueue
+            appends = [fx.node(c) for c in calls_in(item) if pm('self._tx_pend_start.append($x)', c) is not None]
+            if appends and fx.cfg.must_pass(fx.cfg.entry, fx.node(call), set(appends))[0]:
+                ob.site(SESS, call, item.name + ': trigger after an enqueue (new transfers only)')
+                continue
             if fx.has(call, 'self._in_term', False):
                 ob.violate(SESS, fx.qual, '{} under not self._in_term'.format(src(call)), 'the queue pump is not re-armed while terminating: the next segment of a transfer in progress is never '
                            'pulled, so the transfer stalls and the session stays half-open', call)
